@@ -28,7 +28,7 @@ func init() {
 		Level: "exploration",
 		Modes: []Mode{{Name: "mux", Weight: 3}, {Name: "raw", Weight: 1}},
 		Gen:   genC05, Run: runC05,
-		QuickRuns: 5000, ThoroughRuns: 240000,
+		QuickRuns: 8000, ThoroughRuns: 240000,
 		Rule: "plan = (2..5 namespaces out of {/, /a, /ab, /a/b, /A, /chat, /chat/, /ünï, /a-b}, 1..3 managers with sockets in 1..4 of them on one connection each, optionally a namespace the server does not have, connect order and instants, a program of 10..60 operations out of {client emit, client emit with ack, server emit, server emit with ack, namespace broadcast, room broadcast, client Disconnect, server Disconnect} at drawn instants, transport, network and stall parameters; raw mode: a protocol-level peer that has joined a drawn subset sends EVENT / ACK / DISCONNECT / BINARY_EVENT packets for a namespace it has not joined, existing or not, in '', '/' and '/,' spellings) from VERIF_SEED; " +
 			"non-trivial = at least two namespaces shared one connection while traffic of both was in flight, or the raw packet was sent; distinct = distinct history digest among those",
 		Assumptions: []string{
@@ -68,12 +68,81 @@ func genC05(p *sim.Plan, r *sim.Rand, tier string) {
 	p.Set("managers", int64(nm))
 	type sk struct{ m, n int }
 	var socks []sk
+	discAt := map[sk]int64{}
 	for m := 0; m < nm; m++ {
 		k := r.Range(1, minInt(4, nn))
 		pm := r.Perm(nn)
-		for _, n := range pm[:k] {
+		if k >= 2 && r.Bool(0.2) {
+			// A connected socket is disconnected by the application at the moment the refusal of an
+			// unknown namespace arrives (the refusal makes the manager close the connection if no socket
+			// is active any more), and a sibling connects right afterwards: whatever Disconnect still
+			// has to send belongs to the connection that is gone.
+			t0 := r.I64n(10_000_000)
+			t1 := t0 + 30_000_000 + r.I64n(20_000_000)
+			a, b := pm[0], pm[1]
+			socks = append(socks, sk{m, a}, sk{m, b})
+			dat := t1 + r.I64n(4*(p.C("lat_us")*1000+500_000))
+			discAt[sk{m, a}] = -dat
+			p.Ops = append(p.Ops,
+				sim.Op{At: t0, Actor: m, Kind: "connect", I: []int64{int64(a)}},
+				sim.Op{At: t1, Actor: m, Kind: "connect", I: []int64{-1}},
+				sim.Op{At: dat, Actor: m, Kind: "c_disc", I: []int64{int64(a), 0}},
+				sim.Op{At: dat + r.I64n(12_000_000), Actor: m, Kind: "connect", I: []int64{int64(b)}})
+			p.Stall = DrawStall(r, 300_000_000)
+			p.Stall.Focus = []string{"client_socket.go"}
+			p.Stall.SitePct = 100
+			p.Stall.RatePPM = []int{30000, 100000, 200000}[r.Intn(3)]
+			p.Stall.MinNs = 3_000_000
+			p.Stall.MaxNs = []int64{10_000_000, 30_000_000}[r.Intn(2)]
+			continue
+		}
+		early := -1
+		if k >= 2 && r.Bool(0.5) {
+			// one socket is disconnected by the application while the manager is still opening its
+			// connection (or the CONNECT packets are on their way): its siblings connect all the same
+			early = 0
+		}
+		// (on a network without latency the whole exchange takes no time: only the stalls decide
+		// what overlaps with what)
+		tightEarly := early >= 0 && r.Bool(0.3)
+		if tightEarly {
+			p.Set("lat_us", 0)
+			p.Set("jit_us", 0)
+		}
+		var dat int64
+		for i, n := range pm[:k] {
 			socks = append(socks, sk{m, n})
-			p.Ops = append(p.Ops, sim.Op{At: r.I64n(40_000_000), Actor: m, Kind: "connect", I: []int64{int64(n)}})
+			at := r.I64n(40_000_000)
+			if early >= 0 && i > 0 && (tightEarly || r.Bool(0.6)) {
+				// a sibling connects right after that Disconnect (which closed the connection, if the
+				// socket was the only active one): the next attempt against the end of the previous one
+				at = dat + r.I64n(3_000_000)
+			}
+			p.Ops = append(p.Ops, sim.Op{At: at, Actor: m, Kind: "connect", I: []int64{int64(n)}})
+			if i == early {
+				dat = at + r.I64n(8*(p.C("lat_us")*1000+500_000))
+				if tightEarly {
+					dat = at + r.I64n(2_000_000)
+				}
+				discAt[sk{m, n}] = -dat
+				p.Ops = append(p.Ops, sim.Op{At: dat, Actor: m, Kind: "c_disc", I: []int64{int64(n), 0}})
+			}
+		}
+		if early >= 0 && r.Bool(0.8) {
+			// long stalls in the client's connection management
+			p.Stall = DrawStall(r, 300_000_000)
+			p.Stall.Focus = []string{"client_manager.go", "client_socket.go", "client_manager_conn.go"}
+			p.Stall.SitePct = 100
+			p.Stall.RatePPM = []int{10000, 30000, 100000}[r.Intn(3)]
+			p.Stall.MinNs = 2_000_000
+			p.Stall.MaxNs = []int64{8_000_000, 20_000_000, 50_000_000}[r.Intn(3)]
+		}
+		if tightEarly {
+			// one stall of a few milliseconds somewhere in the socket's own code, nothing else
+			p.Stall = sim.StallCfg{Seed: r.U64(), BudgetNs: 300_000_000}
+			p.Stall.OneShot.Prefix = "client_socket.go:"
+			p.Stall.OneShot.Nth = r.Intn(36)
+			p.Stall.OneShot.Ns = 4_000_000 + r.I64n(8_000_000)
 		}
 		if r.Bool(0.3) {
 			p.Ops = append(p.Ops, sim.Op{At: r.I64n(40_000_000), Actor: m, Kind: "connect", I: []int64{-1}}) // unknown namespace
@@ -88,9 +157,18 @@ func genC05(p *sim.Plan, r *sim.Rand, tier string) {
 			}
 		}
 	}
+	if p.Stall.OneShot.Ns > 0 {
+		// (creating a socket passes two yield points of that file: skip them)
+		created := map[[2]int64]bool{}
+		for _, op := range p.Ops {
+			if op.Kind == "connect" {
+				created[[2]int64{int64(op.Actor), op.Int(0)}] = true
+			}
+		}
+		p.Stall.OneShot.Nth += 2 * len(created)
+	}
 	span := int64(r.LogDur(50*time.Millisecond, 2*time.Second))
 	nops := r.Range(10, 60)
-	discAt := map[sk]int64{}
 	id := int64(1)
 	for i := 0; i < nops; i++ {
 		s := socks[r.Intn(len(socks))]
